@@ -5,6 +5,7 @@ Refuting events: a text node in expand() output that differs from the payload wr
 order of copies, a line missing / altered / duplicated at a $# site or at the deepest last
 element; supplied text interpreted as syntax."""
 import itertools
+import re
 
 from .. import core, enum, outparse, probes
 
@@ -21,7 +22,7 @@ ASSUMPTIONS = ['lines containing a double quote are not placed at $# sites insid
 ALPHA = ['a', '$', '*', '>', '+', '^', '(', ')', '[', ']', '{', '}', '"', "'", '\\', '#', '.', ' ', 'é', '@', '-', '1', '/', '!', '=', ':']
 BOUNDS = {'quick': {'maxlen': 3, 'stride': 1, 'random': 1200, 'wrap': 900}, 'thorough': {'maxlen': 4, 'stride': 2, 'random': 12000, 'wrap': 14000}}
 FLOORS = {'quick': {'inline:enum': 170000, 'inline:random': 30000, 'inline:nested': 8000, 'wrap': 6000, 'wrap:generated': 3000}, 'thorough': {'inline:enum': 2000000, 'inline:random': 500000, 'inline:nested': 100000, 'wrap': 200000, 'wrap:generated': 90000}}
-REQUIRED_MONITORS = ['oracle:inline-text', 'oracle:wrap-copies', 'oracle:wrap-lines']
+REQUIRED_MONITORS = ['oracle:inline-text', 'oracle:wrap-copies', 'oracle:wrap-lines', 'oracle:text-around-field']
 
 
 def describe(tier):
@@ -446,6 +447,48 @@ def wrap_flat(tree):
     return out
 
 
+def field_text_cases(mon):
+    """Text around a tabstop field, and text that ends in / consists of line breaks: with formatting off nothing but the text itself decides
+    what is written - the text before the field, the children (they take the place of the first field), the text after it, character for
+    character, line breaks and blanks at the seams included (LF stands for any line break)."""
+    import emmet
+    ctx = mon.ctx
+    befores = ['a ', 'a\nb ', '', 'x\n', ' ', 'q\n\n', 'w\r\n']
+    afters = [' c', '  c', '\tc', 'c', ' c\nd', '', '\nz', ' ']
+    kids = [('i', '<i></i>'), ('i+b', '<i></i><b></b>'), ('x-q{t}', '<x-q>t</x-q>')]
+    for be in befores:
+        for af in afters:
+            for ab, html in kids:
+                abbr = 'p{%s${1}%s}>%s' % (be, af, ab)
+                ctx.ev('inline:field-with-children')
+                ctx.mon('oracle:text-around-field')
+                r = core.call(emmet.expand, abbr, {'options': {'output.format': False}})
+                want = '<p>' + (be + html + af).replace('\r\n', '\n') + '</p>'
+                case = {'part': 'field-text', 'abbr': abbr, 'expected': want}
+                if r[0] == 'exc':
+                    ctx.violation('exception', case, {'exc': list(core.exc_site(r[1]))})
+                elif r[1] != want:
+                    ctx.violation('text-not-verbatim', case, {'output': r[1][:200]})
+                else:
+                    ctx.seen(('field-text', abbr))
+    # leaf texts that end in a line break, fields at line starts
+    for text in ['a\n', 'a\n\n', '\n', '${1:t}:\n${2:d}', 'x\n${1}', '${1}\ny', 'a\n${1}\n', '\n\nb']:
+        abbr = 'p{%s}' % text
+        ctx.ev('inline:field-with-children')
+        ctx.mon('oracle:text-around-field')
+        r = core.call(emmet.expand, abbr, {'options': {'output.format': False, 'output.field': lambda index, placeholder, **kw: placeholder}})
+        plain = re.sub(r'\$\{\d+(?::([^}]*))?\}', lambda m: m.group(1) or '', text)
+        # a text with line breaks is set off on lines of its own (one indent unit deeper), also with formatting off: compared without the tabs
+        want = '<p>\n' + plain + '\n</p>' if '\n' in plain else '<p>' + plain + '</p>'
+        case = {'part': 'field-text', 'abbr': abbr, 'expected': want}
+        if r[0] == 'exc':
+            ctx.violation('exception', case, {'exc': list(core.exc_site(r[1]))})
+        elif r[1].replace('\t', '') != want:
+            ctx.violation('text-not-verbatim', case, {'output': r[1][:200]})
+        else:
+            ctx.seen(('field-text', abbr))
+
+
 def shards(tier, seed):
     n = 12 if tier == 'quick' else 16
     b = BOUNDS[tier]
@@ -457,6 +500,8 @@ def run_shard(desc, ctx):
     pr = probes.Probes().add('emmet.abbreviation.tokenizer:literal').add('emmet.abbreviation.parser:text').add('emmet.abbreviation.parser:get_text') \
         .add('emmet.abbreviation.convert:insert_text').add('emmet.abbreviation.stringify:RepeaterPlaceholder').install()
     try:
+        if desc['part'] == 0:
+            field_text_cases(mon)
         k = 0
         for p in enum.strings(ALPHA, desc['maxlen'], desc['part'], desc['nparts'], stride=desc['stride'], offset=desc['seed'] % desc['stride']):
             for enc in (0, 1, 2):
